@@ -23,36 +23,6 @@ inductive CfiReg where
 def splitWs (s : String) : List String :=
   (s.split (fun c => c = ' ' ∨ c = '\t' ∨ c = '\n' ∨ c = '\r' ∨ c = '\x0c')).toList.map (·.toString) |>.filter (· ≠ "")
 
-def ruleSet (out : List (CfiReg × List String)) (r : CfiReg) (e : List String) : List (CfiReg × List String) :=
-  match out with
-  | [] => [(r, e)]
-  | (r', e') :: t => if r' = r then (r, e) :: t else (r', e') :: ruleSet t r e
-
-def mkCfiReg (tok : String) : CfiReg :=
-  if tok = ".cfa" then .cfa else if tok = ".ra" then .ra
-  else if tok.startsWith "$" then .other (tok.drop 1).toString else .other tok
-
-/-- `parse_cfi_exprs`: `cur` = register being defined, `expr` = its tokens so far (reversed) -/
-def parseRules : List String → Option CfiReg → List String → List (CfiReg × List String) →
-    Option (List (CfiReg × List String))
-  | [], cur, expr, out =>
-    if expr.isEmpty then none
-    else match cur with
-      | none => none
-      | some r => some (ruleSet out r expr.reverse)
-  | tok :: rest, cur, expr, out =>
-    if tok.endsWith ":" then
-      let name := (tok.dropEnd 1).toString
-      match cur with
-      | some r =>
-        if expr.isEmpty then none
-        else parseRules rest (some (mkCfiReg name)) [] (ruleSet out r expr.reverse)
-      | none => parseRules rest (some (mkCfiReg name)) [] out
-    else
-      match cur with
-      | none => none
-      | some _ => parseRules rest cur (tok :: expr) out
-
 /-- `i64::from_str`, result as the `u64` bit pattern (`value as u64`) -/
 def parseI64 (s : String) : Option Nat :=
   let cs := s.toList
@@ -66,6 +36,82 @@ def parseI64 (s : String) : Option Nat :=
     let v := ds.foldl (fun acc c => acc * 10 + (c.toNat - '0'.toNat)) 0
     if neg then (if v ≤ 2 ^ 63 then some ((2 ^ 64 - v) % 2 ^ 64) else none)
     else (if v < 2 ^ 63 then some v else none)
+
+/-! ### tokens
+
+  `parse_cfi_exprs` and `eval_cfi_expr` look at one whitespace-separated token at a time, and what
+  they do with a token depends on its text only. The model therefore classifies every token once
+  (`classify`, in the order of the `match` in `eval_cfi_expr`; `classifyR` adds the `REG:` test of
+  `parse_cfi_exprs`) and lets the splitter and the evaluator work on the classified tokens — the
+  same computation, with the lexing separated from the evaluation (which is what C04's theorems
+  about the canonical rules need: `Pre` compares `tokenize rule` with the canonical token list). -/
+
+/-- a token of an expression -/
+inductive ETok where
+  | add | sub | mul | div | rem | align | deref | cfa | undef
+  /-- a token containing `$`: the register named by the text after the first `$` -/
+  | dollar (name : String)
+  /-- `i64::from_str` succeeded (value as the `u64` bit pattern) -/
+  | lit (v : Nat)
+  /-- anything else: a bare register name -/
+  | bare (name : String)
+  deriving DecidableEq, Repr
+
+/-- the `match token { … }` of `eval_cfi_expr`, in the code's order -/
+def classify (tok : String) : ETok :=
+  if tok = "+" then .add
+  else if tok = "-" then .sub
+  else if tok = "*" then .mul
+  else if tok = "/" then .div
+  else if tok = "%" then .rem
+  else if tok = "@" then .align
+  else if tok = "^" then .deref
+  else if tok = ".cfa" then .cfa
+  else if tok = ".undef" then .undef
+  else if tok.contains '$' then .dollar (String.ofList ((tok.toList.dropWhile (· ≠ '$')).drop 1))
+  else match parseI64 tok with
+    | some v => .lit v
+    | none => .bare tok
+
+def mkCfiReg (tok : String) : CfiReg :=
+  if tok = ".cfa" then .cfa else if tok = ".ra" then .ra
+  else if tok.startsWith "$" then .other (tok.drop 1).toString else .other tok
+
+/-- a token of a rule set: `REG:` or an expression token -/
+inductive RTok where
+  | label (r : CfiReg)
+  | tok (t : ETok)
+  deriving DecidableEq, Repr
+
+def classifyR (tok : String) : RTok :=
+  if tok.endsWith ":" then .label (mkCfiReg (tok.dropEnd 1).toString) else .tok (classify tok)
+
+/-- the classified tokens of a `STACK CFI` rule text -/
+def tokenize (line : String) : List RTok := (splitWs line).map classifyR
+
+def ruleSet (out : List (CfiReg × List ETok)) (r : CfiReg) (e : List ETok) : List (CfiReg × List ETok) :=
+  match out with
+  | [] => [(r, e)]
+  | (r', e') :: t => if r' = r then (r, e) :: t else (r', e') :: ruleSet t r e
+
+/-- `parse_cfi_exprs`: `cur` = register being defined, `expr` = its tokens so far (reversed) -/
+def parseRules : List RTok → Option CfiReg → List ETok → List (CfiReg × List ETok) →
+    Option (List (CfiReg × List ETok))
+  | [], cur, expr, out =>
+    if expr.isEmpty then none
+    else match cur with
+      | none => none
+      | some r => some (ruleSet out r expr.reverse)
+  | .label name :: rest, cur, expr, out =>
+    match cur with
+    | some r =>
+      if expr.isEmpty then none
+      else parseRules rest (some name) [] (ruleSet out r expr.reverse)
+    | none => parseRules rest (some name) [] out
+  | .tok t :: rest, cur, expr, out =>
+    match cur with
+    | none => none
+    | some _ => parseRules rest cur (t :: expr) out
 
 def isPow2 (n : Nat) : Bool := n != 0 && (n &&& (n - 1)) == 0
 
@@ -82,7 +128,7 @@ def CfiIn.deref (x : CfiIn) (addr : Nat) : Option Nat :=
 def W64 : Nat := 2 ^ 64
 
 /-- `eval_cfi_expr` -/
-def evalCfi (x : CfiIn) (cfa : Option Nat) : List String → List Nat → Option Nat
+def evalCfi (x : CfiIn) (cfa : Option Nat) : List ETok → List Nat → Option Nat
   | [], st => match st with
     | [v] => some v
     | _ => none
@@ -93,34 +139,29 @@ def evalCfi (x : CfiIn) (cfa : Option Nat) : List String → List Nat → Option
         | some v => evalCfi x cfa rest (v :: st')
         | none => none
       | _ => none
-    if tok = "+" then bin fun l r => some ((l + r) % W64)
-    else if tok = "-" then bin fun l r => some ((l + W64 - r) % W64)
-    else if tok = "*" then bin fun l r => some ((l * r) % W64)
-    else if tok = "/" then bin fun l r => if r = 0 then none else some (l / r)
-    else if tok = "%" then bin fun l r => if r = 0 then none else some (l % r)
-    else if tok = "@" then bin fun l r => if isPow2 r then some (l - l % r) else none
-    else if tok = "^" then
+    match tok with
+    | .add => bin fun l r => some ((l + r) % W64)
+    | .sub => bin fun l r => some ((l + W64 - r) % W64)
+    | .mul => bin fun l r => some ((l * r) % W64)
+    | .div => bin fun l r => if r = 0 then none else some (l / r)
+    | .rem => bin fun l r => if r = 0 then none else some (l % r)
+    | .align => bin fun l r => if isPow2 r then some (l - l % r) else none
+    | .deref =>
       match st with
       | p :: st' => match x.deref p with
         | some v => evalCfi x cfa rest (v :: st')
         | none => none
       | _ => none
-    else if tok = ".cfa" then
+    | .cfa =>
       match cfa with
       | some v => evalCfi x cfa rest (v :: st)
       | none => none
-    else if tok = ".undef" then none
-    else if tok.contains '$' then
-      -- register named by the text after the first `$`
-      let name := String.ofList ((tok.toList.dropWhile (· ≠ '$')).drop 1)
+    | .undef => none
+    | .dollar name | .bare name =>
       match x.reg name with
       | some v => evalCfi x cfa rest (v :: st)
       | none => none
-    else match parseI64 tok with
-      | some v => evalCfi x cfa rest (v :: st)
-      | none => match x.reg tok with
-        | some v => evalCfi x cfa rest (v :: st)
-        | none => none
+    | .lit v => evalCfi x cfa rest (v :: st)
 
 /-- `CfiStackWalker`'s mutable half: caller registers and the caller validity set -/
 structure CfiOut where
@@ -145,7 +186,7 @@ def CfiOut.clearReg (a : Arch) (o : CfiOut) (name : String) : CfiOut :=
   | none => o
   | some m => { o with valid := o.valid.filter (· ≠ m) }
 
-def otherRules (rs : List (CfiReg × List String)) : List (String × List String) :=
+def otherRules (rs : List (CfiReg × List ETok)) : List (String × List ETok) :=
   rs.filterMap fun (r, e) => match r with
     | .other n => some (n, e)
     | _ => none
@@ -156,7 +197,7 @@ def strLe (a b : String) : Bool := a < b || a == b
 def walkCfi (x : CfiIn) (o : CfiOut) (init : String) (adds : List String) : Option CfiOut :=
   let a := x.arch
   -- later definitions of a register override earlier ones
-  let parsed := (init :: adds).foldl (fun acc line => acc.bind fun out => parseRules (splitWs line) none [] out) (some [])
+  let parsed := (init :: adds).foldl (fun acc line => acc.bind fun out => parseRules (tokenize line) none [] out) (some [])
   match parsed with
   | none => none
   | some rs =>
@@ -184,8 +225,13 @@ def walkCfi (x : CfiIn) (o : CfiOut) (init : String) (adds : List String) : Opti
               | none => o.clearReg a n) o)
     | _, _ => none
 
-/-- `callee_forwarded_regs` -/
-def forwarded (a : Arch) (c : Ctx) : List String := a.calleeSaved.filter fun r => c.hasLit r
+/-- `callee_forwarded_regs`: x86 / x86-64 / MIPS test `which.contains(reg)`; the three ARM
+    unwinders go through `register_is_valid` (fix of F28), so that a frame pointer recorded under
+    its other name (`r11` / `x29`, as the frame-pointer unwinder does) is forwarded too -/
+def forwarded (a : Arch) (c : Ctx) : List String :=
+  match a with
+  | .arm | .arm64 | .arm64old => a.calleeSaved.filter fun r => c.has a r
+  | _ => a.calleeSaved.filter fun r => c.hasLit r
 
 /-- derived `Ord` of `CfiRules`: `(address, rules)` -/
 def addLe (p q : Nat × String) : Bool := p.1 < q.1 || (p.1 == q.1 && strLe p.2 q.2)
